@@ -264,5 +264,19 @@ def run(chk):
                 chk.violation("malformed-accepted|%s" % fam, "the malformed %s text %r is accepted (reads back %s)" % (
                     fam, t, show(canon_dump(r["globals"]["__o"])[1][0]) if "globals" in r and r["globals"].get("__o") and r["globals"]["__o"]["a"] else "?"),
                     {"text": t})
+        # ---- a rejected text leaves no trace in how later texts are read (the REPL goes on after the runtime error)
+        iso = []
+        bad6 = ["2001:db8:1:2:3:4::5:6", "::1:2:zz", "1::2::3", "::1:2:3:4:5:6:7:8", "fe80::1:zz", "1:2:3:4:5:6:7::8:9", "::ffff:1:2:3:4:5:6:7", "1::g", "a:b::c:d:e:f:1:2:3"]
+        good6 = [["L.src = \"fe80::1\"; puts(L.src);", "L.dst = \"::2:3\"; puts(L.dst);", "L.src = \"1::\"; puts(L.src);", "L.dst = \"1:2:3:4:5:6:7:8\"; puts(L.dst);"],
+                 ["L.dst = \"::\"; puts(L.dst);", "L.src = \"a::b:c\"; puts(L.src);", "L.src = \"::1\"; puts(L.src);"]]
+        for bi, b in enumerate(bad6 if not quick else bad6[:6]):
+            iso.append(("ip6", ["let p = pcap_read_next(pcap_open(%s)); let L = p.eth.ipv6;" % lit(in6)], ["L.src = %s;" % lit(b)], good6[bi % 2], []))
+        for b in ("1.2.3.999", "1.2.3", "10.0.0.1.5", "10.x.0.1"):
+            iso.append(("ip4", ["let p = pcap_read_next(pcap_open(%s)); let L = p.eth.ipv4;" % lit(in4)], ["L.dst = %s;" % lit(b)],
+                        ["L.dst = \"10.20.30.40\"; puts(L.dst);", "L.src = \"1.2.3.4\"; puts(L.src);"], []))
+        for b in ("aa:bb:cc:dd:ee:gg", "aa:bb:cc", "aa:bb:cc:dd:ee:ff:00"):
+            iso.append(("mac", ["let p = pcap_read_next(pcap_open(%s)); let L = p.eth;" % lit(in4)], ["L.dst = %s;" % lit(b)],
+                        ["L.dst = \"01:02:03:04:05:06\"; puts(L.dst);", "L.src = \"aa:bb:cc:dd:ee:ff\"; puts(L.src);"], []))
+        core.isolation_after_errors(chk, "address", iso)
     finally:
         shutil.rmtree(work, ignore_errors=True)
